@@ -42,7 +42,7 @@ try:
     out["demo_with_patch_exit"] = p.returncode
     out["demo_with_patch_tail"] = (p.stdout + p.stderr)[-600:]
     if not skip_suite:
-        p = run(f"{PY} -m pytest -q -p no:cacheprovider -n 10 --timeout=900 -x --maxfail=30 2>&1 | tail -40", wt, 3000)
+        p = run(f"{PY} -m pytest -q -p no:cacheprovider -n {os.environ.get('SEED_N', '10')} --timeout=900 -x --maxfail=30 2>&1 | tail -40", wt, 3000)
         tail = p.stdout
         failed = re.findall(r"^FAILED (\S+)", tail, re.M)
         m = re.search(r"(\d+) passed", tail)
@@ -83,7 +83,8 @@ try:
     # the /verif checks against the patched scratch tree (TSA_REPO points the analyser at it; /repo stays untouched)
     caught, errors = [], []
     ids = [json.loads(l)["id"] for l in open("/verif/properties.jsonl")]
-    env = dict(os.environ, TSA_REPO=wt)
+    evtmp = os.path.join(os.path.dirname(wt), f"ev_{sid}")  # evidence of these runs describes the patched tree: keep it out of /verif/evidence
+    env = dict(os.environ, TSA_REPO=wt, TSA_EVIDENCE_DIR=evtmp)
     for pid in ids:
         if not os.path.exists(f"/verif/tsa/rules/{pid}.py"):
             continue
@@ -95,7 +96,7 @@ try:
             errors.append(pid)
     out["caught_by"] = caught
     out["analysis_errors"] = errors
-    subprocess.run("rm -f /verif/evidence/*.violation.json", shell=True)
+    shutil.rmtree(evtmp, ignore_errors=True)
 finally:
     subprocess.run(["git", "-C", "/repo", "worktree", "remove", "--force", wt], capture_output=True)
 
